@@ -6,4 +6,5 @@ CONSTANTS
   Outcomes = {"ok"}
   EarlyEnd = TRUE
   WithDrop = FALSE
+  WithFree = FALSE
 PROPERTIES RefinesRpc
